@@ -429,10 +429,15 @@ func sameSourceDepth(p *packagesPackage, fd *ast.FuncDecl, a, b ast.Expr, depth 
 		}
 		return s
 	}
+	selAl := selectorAliases(fd)
 	expand := func(s string) string {
 		r := rootOfTxt(s)
 		if al, ok := alias[r]; ok {
 			return al + s[len(r):]
+		}
+		// ops := a.Operators — a local name for a field of the object
+		if sel, ok := selAl[r]; ok {
+			return types.ExprString(sel) + s[len(r):]
 		}
 		return s
 	}
@@ -444,7 +449,7 @@ func sameSourceDepth(p *packagesPackage, fd *ast.FuncDecl, a, b ast.Expr, depth 
 			return fmt.Sprintf("both are literals of %d elements", la), true
 		}
 	}
-	a2, b2 := aT, bT
+	a2, b2 := expand(aT), expand(bT)
 	if m, ok := madeFrom[aT]; ok {
 		a2 = m
 	}
